@@ -1,7 +1,7 @@
 (* C13 — quasi-random samplers emit the true Halton and R sequences, without gaps.
    Property theorems only; each is closed by `exact` of a lemma proved in Proofs/HaltonP.v / Proofs/RSeqP.v. *)
 From Coq Require Import List ZArith QArith Reals Znumtheory Sorted.
-From BlackIt Require Import Model.Halton Model.RSeq Proofs.HaltonP Proofs.RSeqP Model.SeqRej Proofs.SeqRejP.
+From BlackIt Require Import Model.Halton Model.RSeq Proofs.HaltonP Proofs.HaltonInjP Proofs.RSeqP Model.SeqRej Proofs.SeqRejP.
 Import ListNotations.
 Open Scope Z_scope.
 
@@ -24,6 +24,27 @@ Print Assumptions C13_masked_loop_eq_per_base.
 Theorem C13_radinv_range : forall b n, 2 <= b -> 0 <= n -> (0 <= radinv b n /\ radinv b n < 1)%Q.
 Proof. exact radinv_range. Qed.
 Print Assumptions C13_radinv_range.
+
+(* round 5: the radical inverse is injective - distinct indices never give the same coordinate, in any base; with
+   C13_kth_point_index / C13_indices_exact (consecutive, distinct indices) no coordinate of a run is ever repeated *)
+Theorem C13_radinv_injective : forall b n m, 2 <= b -> 0 <= n -> 0 <= m -> (radinv b n == radinv b m)%Q -> n = m.
+Proof. exact radinv_inj. Qed.
+Print Assumptions C13_radinv_injective.
+
+(* the recursion of the radical inverse: shift the last digit behind the radix point *)
+Theorem C13_radinv_step : forall b n, 2 <= b -> 0 < n ->
+  (radinv b n == (inject_Z (n mod b) + radinv b (n / b)) / inject_Z b)%Q.
+Proof. exact radinv_step. Qed.
+Print Assumptions C13_radinv_step.
+
+Theorem C13_radinv_positive : forall b n, 2 <= b -> 0 < n -> (0 < radinv b n)%Q.
+Proof. exact radinv_pos. Qed.
+Print Assumptions C13_radinv_positive.
+
+Example C13_nonvacuous_radinv_step :
+  Qeq_bool (radinv 11 1331) (1 # 14641) = true /\ Qeq_bool (radinv 3 5) ((2 # 3) + (1 # 9)) = true /\
+  Qeq_bool (radinv 2 6) (radinv 2 3 / 2) = true.
+Proof. vm_compute. auto. Qed.
 
 (* the j-th row (0-based) of a batch drawn at cursor s is the point of index s + 1 + j *)
 Theorem C13_kth_point_index : forall bases s k j, (j < k)%nat ->
